@@ -256,6 +256,36 @@ def run(ctx, chk):
     else:
         chk.fail('C03.3', 'guard', 'blocks can be translated/inserted outside the can_dynarec guard (callers %s / %s)'
                  % (callers_t, callers_i), 'src/emulator.rs', None)
+    # ---- rule 6: the only way into translated code is this step's lookup (under the current tag) or this step's translation
+    chk.rule('C03.6', 'D', 'entry provenance: the host address handed to CodeCache::call is, on every path of run_code_block, '
+             'the result of the get_address_for_ip lookup or of the translate_code_block call made in the same step - no '
+             'remembered address (a "last block" shortcut, a second cache in front of the tagged one) reaches it', floor=1)
+    GAI = 'cache::CodeCache::get_address_for_ip'
+    CALL = 'cache::CodeCache::call'
+    ipe = absint.Interp(facts, opaque=[TCB, CALL, GAI, HI_(), 'mem::MemoryAreas::run_clock_cycles', 'interpreter::run_code_block'],
+                        trust_asserts=('overflow',))
+    st = ipe.new_state()
+    core = ipe.arg_object(st, 'core')
+    nent = 0
+    bad6 = None
+    for r in ipe.run(RCB, [core], st):
+        evs = r.state.events
+        for i_, e in enumerate(evs):
+            if e[0] != 'call' or e[1] != CALL:
+                continue
+            nent += 1
+            addr = e[2][1] if len(e[2]) > 1 else None
+            srcs = [x[3] for x in evs[:i_] if x[0] == 'call' and x[1] in (TCB, GAI) and x[3] is not None]
+            names = [x[2] for x in srcs if x[0] == 's']
+            ss = syms_of(addr) if addr is not None and addr[0] in ('s', 'o') else set()
+            if not ss or not all(any(y[2] == n_ or y[2].startswith(n_ + '#') or y[2].startswith(n_ + '.') for n_ in names)
+                                 for y in ss):
+                bad6 = bad6 or ('translated code is entered at %s, which is not the result of this step\'s cache lookup or '
+                                'translation (%s)' % (fmt(addr)[:80] if addr is not None else None, names))
+    if bad6 or not nent:
+        chk.fail('C03.6', 'entry', bad6 or 'no path of run_code_block enters translated code (anchor lost)', 'src/emulator.rs', None)
+    else:
+        chk.ok('C03.6', 'entry', sample={'entries': nent, 'address': 'get_address_for_ip(ip) payload or translate_code_block(..)'})
     # ---- rule 4
     ipk = absint.Interp(facts, models={BGET: ev_model('btree_get'), BINS: ev_model('btree_insert')})
     keys = {}
